@@ -182,6 +182,12 @@ def oracle(run: runner.Run, oc: Outcome) -> None:
                             break
 
         # ---------------- C. close is not early ----------------
+        def cyc_t0(step: changes.Step) -> float:
+            for cyc_ in cycles:
+                if step in cyc_:
+                    return cyc_[0].t0
+            return step.t0
+
         for s in lst:
             if s.reason not in ('create', 'update', 'delete', 'resume'):
                 continue
@@ -221,6 +227,9 @@ def oracle(run: runner.Run, oc: Outcome) -> None:
                         continue  # superseded by another cause: legitimately abandoned
                     if allspecs[hid].get('subs'):
                         continue  # parents are finalised by their children; judged by clause D
+                    if any(c.hid == hid and c.uid == uid and c.seq1 is not None and c.seq1 < w.seq and c.t0 >= cyc_t0(s)
+                           and changes.final_outcome(c, allspecs.get(hid, {})) for c in run.calls if c.op == opid):
+                        continue  # it did finish earlier in this cycle; the write of that outcome was refused or lost
                     if '/' in hid:
                         # the sub-handlers of a parent that has given up for good (now, or as recorded) are abandoned
                         # with it: the parent's code, which declares them, is not going to run again
